@@ -25,7 +25,8 @@ CONTENTS = {
     "bin": b"\x00\x01binary\r\nwith cr lf pairs\r\n\xff",
 }
 FILES = {"p": "p.txt", "q": "q é.dat"}
-ALG = {"legacy": "md5-dos2unix", "cache": "md5"}
+ALG = {"legacy": "md5-dos2unix", "cache": "md5", "plain": "md5"}
+LOCAL = ("legacy", "cache")
 
 
 def _md5(b):
@@ -66,7 +67,10 @@ class Lab:
         self.data = os.path.join(self.ws, "data")
         os.makedirs(self.data)
         self.state = State(root_dir=root, tmp_dir=os.path.join(root, "state"))
-        self.odb = {s: LocalHashFileDB(self.fs, os.path.join(root, s), state=self.state, hash_name=a) for s, a in ALG.items()}
+        from dvc_data.hashfile.db import HashFileDB
+
+        self.odb = {s: (LocalHashFileDB if s in LOCAL else HashFileDB)(self.fs, os.path.join(root, s), state=self.state, hash_name=a)
+                    for s, a in ALG.items()}
         self.tick = 1_600_000_000_000_000_000
 
     def path(self, p):
@@ -89,10 +93,10 @@ class Lab:
         from dvc_data.index.save import save as isave
 
         odb, alg = self.odb[s], ALG[s]
-        if how in ("stage", "upload", "file"):
+        if how in ("stage", "upload", "file", "hardlink"):
             src = self.path("p") if how == "file" else self.data
             staging, _meta, obj = build(odb, src, self.fs, alg, upload=(how == "upload"))
-            res = transfer(staging, odb, {obj.hash_info}, shallow=False)
+            res = transfer(staging, odb, {obj.hash_info}, shallow=False, hardlink=(how == "hardlink"))
             if res.failed:
                 raise AssertionError(f"transfer failed: {res.failed}")
         elif how == "save":
@@ -122,7 +126,7 @@ class Lab:
                         with open(fp, "rb") as fh:
                             b = fh.read()
                         if name.endswith(".dir"):
-                            dirs_ok = dirs_ok and name == _md5(b) + ".dir" and not os.lstat(fp).st_mode & 0o222
+                            dirs_ok = dirs_ok and name == _md5(b) + ".dir" and (s not in LOCAL or not os.lstat(fp).st_mode & 0o222)
                             continue
                         if b not in BYTES:
                             aliens.append([s, name[:12]])
@@ -131,7 +135,9 @@ class Lab:
                         pairs.append([t, BYTES[b]])
                         if not stat.S_IMODE(os.lstat(fp).st_mode) & 0o222:
                             ro.append(t)
-            store[s], prot[s] = pairs, ro
+            # the generic class never protects; its files may still be read-only because they share an inode with a
+            # protected object of a local store (hard links) - not part of the model
+            store[s], prot[s] = pairs, (ro if s in LOCAL else [])
         return {"store": store, "prot": prot, "dirs_ok": dirs_ok, "aliens": aliens}
 
     def close(self):
@@ -190,7 +196,7 @@ def sim_cases(num, depth, seed):
 def directed_cases():
     """A file hashed for one algorithm and then added, unchanged, to the store of the other - by every code path."""
     cases, n = [], 0
-    hows = {"legacy": ["stage", "save", "file"], "cache": ["stage", "save", "upload", "file"]}
+    hows = {"legacy": ["stage", "save", "file", "hardlink"], "cache": ["stage", "save", "upload", "file", "hardlink"]}
     for first, second in (("legacy", "cache"), ("cache", "legacy")):
         for h1 in hows[first]:
             for h2 in hows[second]:
@@ -200,6 +206,14 @@ def directed_cases():
                            {"op": "Add", "s": second, "how": h2}, {"op": "Migrate", "s": second, "t": first}]
                     cases.append({"id": 100000 + n, "init": init, "ops": ops})
                     n += 1
+    for how in ("stage", "hardlink", "save", "upload", "file"):
+        for t in LOCAL:
+            for init in ({"p": "crlf", "q": "lf"}, {"p": "bin", "q": "lfcr"}):
+                ops = [{"op": "Add", "s": "plain", "how": how}, {"op": "Migrate", "s": "plain", "t": t},
+                       {"op": "Edit", "p": "q", "c": "crlf"}, {"op": "Add", "s": t, "how": "hardlink"},
+                       {"op": "Migrate", "s": t, "t": "plain"}]
+                cases.append({"id": 100000 + n, "init": init, "ops": ops})
+                n += 1
     return cases
 
 
